@@ -208,13 +208,16 @@ pub fn one_case(d: Drv, kind: TKind, offered_in: u64, want_sample: bool) -> Case
             out.viol.push(DViol { prop: "C08", rule: "indirect_negotiated_but_not_used", detail: format!("RING_INDIRECT_DESC negotiated and multi-buffer requests sent, but no indirect descriptor was seen {}", desc) });
         }
         // requests that exist only under a feature
+        let mut net_tx_seen = 0usize;
         for r in dv.log.iter() {
             match d {
                 Drv::Blk if r.readable.len() >= 4 && r.readable[..4] == [4, 0, 0, 0] && neg & (1 << 9) == 0 => out.viol.push(DViol { prop: "C08", rule: "flush_without_feature", detail: format!("FLUSH request without VIRTIO_BLK_F_FLUSH {}", desc) }),
                 Drv::Gpu if r.q == 0 && r.readable.len() >= 4 && r.readable[..4] == [0x0a, 1, 0, 0] && neg & 2 == 0 => out.viol.push(DViol { prop: "C08", rule: "edid_without_feature", detail: format!("GET_EDID without VIRTIO_GPU_F_EDID {}", desc) }),
                 Drv::NetRaw | Drv::Net if r.q == 1 => {
                     let hdr = if neg & devsim::F_VERSION_1 != 0 { 12 } else { 10 };
-                    let payload = if d == Drv::NetRaw { 4 } else { 60 };
+                    // the usage script sends a non-empty frame, then an empty one (header-only chain)
+                    let payload = if net_tx_seen % 2 == 1 { 0 } else if d == Drv::NetRaw { 4 } else { 60 };
+                    net_tx_seen += 1;
                     if r.readable.len() != hdr + payload {
                         out.viol.push(DViol { prop: "C08", rule: "net_header_size_wrong", detail: format!("transmit chain of {} bytes for a {}-byte frame: header must be {} bytes {}", r.readable.len(), payload, hdr, desc) });
                     }
